@@ -10,10 +10,18 @@ require (
 )
 
 require (
+	github.com/AdRoll/goamz v0.0.0-20170825154802-2731d20f46f4 // indirect
 	github.com/Comcast/sheens v2.0.0+incompatible // indirect
+	github.com/bitly/go-simplejson v0.5.0 // indirect
+	github.com/cbroglie/mapstructure v0.0.0-20161118233042-300500ef91c1 // indirect
+	github.com/gocql/gocql v0.0.0-20200624222514-34081eda590e // indirect
+	github.com/golang/snappy v0.0.0-20170215233205-553a64147049 // indirect
+	github.com/hailocab/go-hostpool v0.0.0-20160125115350-e80d13ce29ed // indirect
 	github.com/hashicorp/golang-lru v0.5.4 // indirect
 	github.com/robertkrimen/otto v0.0.0-20191219234010-c382bd3c16ff // indirect
+	gopkg.in/inf.v0 v0.9.1 // indirect
 	gopkg.in/sourcemap.v1 v1.0.5 // indirect
+	gopkg.in/yaml.v2 v2.3.0 // indirect
 )
 
 replace github.com/Comcast/rulio => /repo
